@@ -1275,7 +1275,9 @@ impl RepDefUnraveler {
         // This is the highest def level that is still visible.  Once we hit a list then
         // we stop looking because any null / empty list (or list masked by a higher level
         // null) will not be visible
-        let mut max_level = null_level.max(empty_level);
+        // (a list layer without null / empty lists has no level of its own: everything up to
+        // the levels used by the layers below it is still visible)
+        let mut max_level = null_level.max(empty_level).max(valid_level);
         // Anything higher than this (but less than max_level) is a null struct masking our
         // list.  We will materialize this is a null list.
         let upper_null = max_level;
